@@ -304,6 +304,28 @@ def run_recovery(case, obs=None):
     from vf import harness
     _, method, fault_errno = case
     out = []
+    if fault_errno == -1:
+        # replug detection switched off: the node may vanish or be replaced, the commands keep going through the handle opened at first
+        rig = harness.Rig("sgio", 0x00, detect_replugged=False)
+        try:
+            s = rig.facade(512)
+            for step in ("unlinked", "replaced"):
+                if step == "unlinked":
+                    rig.node.unplug()
+                else:
+                    rig.node.plug()
+                n0 = len(rig.target.log)
+                where = "%s with replug detection off after the node was %s" % (method, step)
+                try:
+                    cmd = F.call(s, method)
+                except Exception as e:   # noqa: BLE001
+                    out.append(("recovery/detect_off_raises", "%s: raised %s: %s" % (where, type(e).__name__, e)))
+                    continue
+                if len(rig.target.log) - n0 != 1 or rig.target.log[-1]["cdb"] != bytes(cmd.cdb):
+                    out.append(("recovery/detect_off_submissions", "%s: the device behind the original handle saw %d commands" % (where, len(rig.target.log) - n0)))
+        finally:
+            rig.close()
+        return out
     rig = harness.Rig("sgio", 0x00)
     import pyscsi.pyscsi.scsi_device as devmod      # (after the rig: the first rig of a process re-imports the library against the stand-ins)
     armed = [False]
@@ -626,7 +648,7 @@ def run_partition(part, tier, seed):
         return acc
     if part[0] == "recovery":
         for m in RECOVERY_METHODS:
-            for en in (13, 24, 16, 0):          # EACCES, EMFILE, EBUSY, no fault (plain re-plug)
+            for en in (13, 24, 16, 0, -1):          # EACCES, EMFILE, EBUSY, no fault (plain re-plug), detection off (node unlinked, then replaced)
                 case = ["recovery", m, en]
                 acc.case(case, nontrivial=True, key=repr(case))
                 obs = []
